@@ -140,7 +140,7 @@ Proof.
 Qed.
 
 (* non-vacuity material *)
-Lemma units_count : List.length units = 48%nat.
+Lemma units_count : List.length units = 49%nat.
 Proof. reflexivity. Qed.
 
 Lemma unit_names_distinct_b :
